@@ -408,6 +408,11 @@ func compare(o Outcome) (violations, disagreements []diff) {
 			}
 			gp := lib.Project(s.Dump, keys, true)
 			mp := lib.Project(md, keys, true)
+			if linkFailed(gp) {
+				// an include or import did not resolve: the identity layer of the model declines
+				// (Identity.Outcome.linkFailed), Go still reports identity errors
+				gp, mp = dropIdentityErrors(gp), dropIdentityErrors(mp)
+			}
 			if d := rescorr.Diff(gp, mp); d != "" {
 				disagreements = append(disagreements, diff{kind: "correspondence", goV: gp, model: mp,
 					what: fmt.Sprintf("op %d (process): %s", i, d)})
@@ -423,6 +428,35 @@ func compare(o Outcome) (violations, disagreements []diff) {
 		}
 	}
 	return
+}
+
+func errClassOf(rec string) string {
+	if !strings.HasPrefix(rec, "E ") {
+		return ""
+	}
+	return rec[strings.LastIndexByte(rec, ':')+1:]
+}
+
+// linkFailed: Process reported a missing module or submodule.
+func linkFailed(d []string) bool {
+	for _, r := range d {
+		if c := errClassOf(r); c == "no-such-module" || c == "no-such-submodule" {
+			return true
+		}
+	}
+	return false
+}
+
+// dropIdentityErrors removes the error records that come from identity lookups.
+func dropIdentityErrors(d []string) []string {
+	var out []string
+	for _, r := range d {
+		if c := errClassOf(r); strings.HasPrefix(c, "identity") || c == "unknown-prefix" {
+			continue
+		}
+		out = append(out, r)
+	}
+	return out
 }
 
 func readable(s string) string {
